@@ -555,3 +555,7 @@ fn test_channel_error_upcast() {
         ChannelError::Close(_)
     );
 }
+
+#[cfg(kani)]
+#[path = "/verif/kani/support.rs"]
+pub(crate) mod verif_kani_support;
